@@ -3,6 +3,8 @@ CONSTANTS
   NT = 2
   NU = 0
   NA = 0
+  Throwing = FALSE
+  WithMake = FALSE
   Vals = {1, 2}
   K = 3
 PROPERTIES RefProtocolLegalH
